@@ -75,6 +75,34 @@ func check(scen string, in In) []*mc.Violation {
 	if err != nil {
 		return []*mc.Violation{mc.V(scen, "write-succeeds", in, "nil error", err.Error(), feats...)}
 	}
+	// the same paragraph built through the library's own helpers writes the same text: Set for each field (every
+	// field first set to a placeholder, then to its value - the order must not change), and Update from a paragraph
+	// that carries the values onto one that carries placeholders
+	if len(in.Names) > 0 {
+		built := control.Paragraph{Values: map[string]string{}}
+		holder := control.Paragraph{Values: map[string]string{}}
+		var t2, t3 string
+		if pn, msg := mc.Guard(func() {
+			for _, n := range in.Names {
+				built.Set(n, "placeholder")
+				holder.Set(n, "placeholder")
+			}
+			for i := len(in.Names) - 1; i >= 0; i-- {
+				built.Set(in.Names[i], in.Values[i])
+			}
+			t2, _ = write(built)
+			u := holder.Update(p)
+			t3, _ = write(u)
+		}); pn {
+			return []*mc.Violation{mc.V(scen, "write-returns", in, "no panic", msg, feats...)}
+		}
+		if t2 != t {
+			vs = append(vs, mc.V(scen, "same-fields-same-order", in, fmt.Sprintf("%q", t), fmt.Sprintf("built with Set: %q", t2), feats...))
+		}
+		if t3 != t {
+			vs = append(vs, mc.V(scen, "same-fields-same-order", in, fmt.Sprintf("%q", t), fmt.Sprintf("placeholders.Update(paragraph): %q", t3), feats...))
+		}
+	}
 	// (a)
 	body := strings.TrimSuffix(t, "\n")
 	for _, l := range strings.Split(body, "\n") {
